@@ -130,7 +130,8 @@ Proof. intros A H p s dst. exact (pipeline_into_spec A p s dst H). Qed.
    alignment (EncodeMem.v).  The kernels are modelled on lists because they use
    unaligned loads/stores only (checked textually by the translator); the theorems below
    are what that abstraction has to deliver, and what the correspondence check observes
-   on the implementation for every pair of offsets 0..31 from a 32-byte aligned base. *)
+   on the implementation for every pair of offsets 0..31 (single offsets up to 63) from 64-byte
+   aligned bases. *)
 
 (* Every store of every kernel stays inside the destination slice -- on success, on the
    error exits (full blocks are stored before the error is looked at) and on a length
@@ -192,6 +193,28 @@ Proof.
   - exact (into_at_outcome_any A p text so n mem d m H Hs Hd).
   - exact (into_at_guards A p text so n mem d m H Hs Hd).
   - exact (raw_at_spec A p junk text so n H Hs).
+Qed.
+
+(* The NEON kernel (arm / aarch64 builds: 4 x 16 lanes per iteration, strict loop bound,
+   encoded initialised to 0, unguarded tail call) computes the same outcome as the generic
+   encoder for ALL byte strings, its stores stay inside the destination, and with a
+   destination of the wrong length it panics before writing.  This arm cannot be run on the
+   x86_64 host of the correspondence check: the model is tied to neon.rs by the translator
+   only (whole normalised body of encode_into_neon). *)
+Theorem C05_encode_neon_eq_generic : forall A, A = dna \/ A = protein ->
+  forall junk junk' s dst,
+    encode_raw (encode_into_neon A) junk s = pipeline_encode_raw PGeneric A junk' s /\
+    Holds A s (encode_raw (encode_into_neon A) junk s) /\
+    length (fst (encode_into_neon A s dst)) = length dst /\
+    (length s <> length dst -> encode_into_neon A s dst = (dst, Panic 1)).
+Proof.
+  intros A HA junk junk' s dst.
+  assert (HN : abc_ok_neon A = true) by (destruct HA; subst; [exact dna_ok_neon | exact protein_ok_neon]).
+  assert (H : abc_ok A = true) by (destruct HA; subst; [exact dna_ok | exact protein_ok]).
+  rewrite (neon_raw_spec A junk s HN), (pipeline_raw_spec A PGeneric junk' s H).
+  split; [reflexivity|]. split; [exact (spec_holds A s (abc_ok_tables A H))|].
+  split; [exact (neon_in_bounds A HN s dst)|].
+  exact (proj2 (neon_into_correct A HN s dst)).
 Qed.
 
 (* Round trip: displaying an accepted text reproduces it (chars and UTF-8 bytes). *)
@@ -273,6 +296,15 @@ Example C05_ex_window :
   pipeline_encode_into_at PSse2 dna text 2 40 mem 5 40 =
     Ok (repeat 9%N 5 ++ repeat 4%N 1 ++ repeat 3%N 31 ++ repeat 9%N 33, Err 46) /\
   pipeline_encode_into_at PSse2 dna text 30 40 mem 5 40 = Panic 4.
+Proof. vm_compute. repeat split. Qed.
+
+(* NEON model: 70 bytes = one 64-lane iteration + 6-byte tail; a foreign byte in lane 63,
+   a second one in the tail: the first is reported; 64 bytes exactly: no vector iteration
+   (strict bound), everything through the unguarded generic tail *)
+Example C05_ex_neon :
+  encode_raw (encode_into_neon protein) (fun _ => 77%N) (repeat x58 63 ++ [x62; x58; x2e; x58; x58; x58; x58]) = Err 98 /\
+  encode_raw (encode_into_neon dna) (fun _ => 77%N) (repeat x54 64) = Ok (repeat 2%N 64) /\
+  encode_raw (encode_into_neon dna) (fun _ => 77%N) [] = Ok [].
 Proof. vm_compute. repeat split. Qed.
 
 (* ---------- statement pins ---------- *)
